@@ -122,6 +122,11 @@ class Fault(Exception):
     """injected handler fault"""
 
 
+# every event carries a text argument with characters that are special for %-, {}- and \-formatting: they end up in
+# the library's own description of the event (error messages, logging) and must not disturb anything
+TAG = "100% {0} {x} %s %d \\n \u20ac"
+
+
 class HandlerAbort(BaseException):
     """injected handler fault that is not derived from Exception (like SystemExit / KeyboardInterrupt)"""
 
@@ -200,7 +205,7 @@ def make_model_class():
             self._actions(self.prog.get("initial", [[]])[idx], -3 - idx)
 
         # the single generic handler
-        def h(self, seq, node):
+        def h(self, seq, node, tag=None):
             sim = self.simulator
             self.trace.append([seq, node, enc_obs(sim.simulator_time)])
             if len(self.trace) > 4 * self.cap + 200:
@@ -233,15 +238,15 @@ def make_model_class():
             seq = self.seq
             if self.direct:
                 t = sim.simulator_time if how == "now" else (sim.simulator_time + arg if how == "rel" else arg)
-                ev = sim.schedule_event(DirectEvent(t, self, "h", prio, seq=seq, node=node))
+                ev = sim.schedule_event(DirectEvent(t, self, "h", prio, seq=seq, node=node, tag=TAG))
             elif how == "now":
-                ev = sim.schedule_event_now(self, "h", prio, seq=seq, node=node)
+                ev = sim.schedule_event_now(self, "h", prio, seq=seq, node=node, tag=TAG)
             elif how == "rel":
-                ev = sim.schedule_event_rel(arg, self, "h", prio, seq=seq, node=node)
+                ev = sim.schedule_event_rel(arg, self, "h", prio, seq=seq, node=node, tag=TAG)
             elif how == "abs":
-                ev = sim.schedule_event_abs(arg, self, "h", prio, seq=seq, node=node)
+                ev = sim.schedule_event_abs(arg, self, "h", prio, seq=seq, node=node, tag=TAG)
             else:
-                ev = sim.schedule_event(SimEvent(arg, self, "h", prio, seq=seq, node=node))
+                ev = sim.schedule_event(SimEvent(arg, self, "h", prio, seq=seq, node=node, tag=TAG))
             self.seq += 1
             self.events.append(ev)
 
